@@ -67,12 +67,13 @@ func DefaultCfg() Cfg {
 const Tick = 10 * time.Minute
 
 const (
-	Issuer    = "https://issuer.example"
-	TokenURL  = "https://issuer.example/token"
-	Subject   = "peter"
-	Password  = "secret-pw"
-	GoodState = "state-0123456789"
-	GoodNonce = "nonce-0123456789"
+	Issuer       = "https://issuer.example"
+	TenantIssuer = "https://tenant-a.issuer.example" // an issuer a session names for itself, different from the configured one
+	TokenURL     = "https://issuer.example/token"
+	Subject      = "peter"
+	Password     = "secret-pw"
+	GoodState    = "state-0123456789"
+	GoodNonce    = "nonce-0123456789"
 )
 
 var (
